@@ -95,7 +95,7 @@ TExec ==
 CallOf(t) ==
     [NewCall(t.who, t.api) EXCEPT !.id = t.id, !.body = t.body, !.big = t.big, !.et = t.et, !.name = t.name,
                                   !.events = SetOf(t.events), !.idc = t.idc, !.agen = t.agen, !.which = t.which,
-                                  !.feat = t.feat, !.slow = t.slow]
+                                  !.feat = t.feat, !.slow = t.slow, !.mode = t.mode]
 
 TCall ==
     /\ Is("Call")
@@ -106,8 +106,9 @@ TCall ==
 \* the rest of a slowly sent request body has arrived
 TBodyDone ==
     /\ Is("BodyDone")
-    /\ BodyDoneEn(st, T.cid)
-    /\ st' = BodyDoneDo(st, T.cid)
+    /\ IF BodyDoneEn(st, T.cid) THEN st' = BodyDoneDo(st, T.cid)
+       \* refused on its headers: the rest of the body is of no interest to anybody
+       ELSE (T.cid \notin DOMAIN st.calls \/ st.calls[T.cid].st = "done") /\ UNCHANGED st
     /\ UNCHANGED tp /\ Adv
 
 \* the driver waited for the answer of a call and gave up: explainable only if the call is legitimately waiting - a poll
@@ -347,6 +348,7 @@ Internal ==
        \/ Step(WatchCancelEn(st), WatchCancelDo(st))
        \/ \E c \in DOMAIN st.calls :
             \/ Step(EffectEn(st, c), StampDone(EffectDo(st, c)))
+            \/ Step(HeadersEn(st, c), StampDone(HeadersDo(st, c)))
             \/ Step(WakeEn(st, c), StampDone(WakeDo(st, c)))
             \/ Step(ReapEn(st, c), ReapDo(st, c))
 
